@@ -131,7 +131,6 @@ def run(ctx):
                 'is not already in output order; selection: every length 1..17 with forced ties')
     ctx.explanation = ('the real loop nest is compared comparator by comparator with the Coq model for each n; the Coq '
                        'certificate covers all inputs for n <= 16; implementation-level oracles cover larger n')
-    thorough_extra = None
     if ctx.tier == 'thorough' and ok:
         # certificate for 17..20 in a generated props file
         gen = os.path.join(os.path.dirname(os.path.dirname(os.path.dirname(os.path.abspath(__file__)))), 'coq', 'props', 'C29_thorough.v')
@@ -299,12 +298,17 @@ def run(ctx):
     fnames = ['min', 'max', 'min_max', 'argmin', 'argmax']
     sel_lens = list(range(0, 18)) if ctx.tier == 'quick' else list(range(0, 34))
     for n in sel_lens:
-        for rep in range(ctx.n(2, 4)):
+        for rep in range(ctx.n(4, 6)):
             span = [1, max(1, n // 3), 20, 2][rep % 4]
             xs = [rng.randint(-span, span) for _ in range(n)]
             if n >= 3 and rep == 1:   # extremes at both ends and in the middle
                 lo, hi = min(xs), max(xs)
                 xs[0], xs[-1], xs[n // 2] = hi, lo, rng.choice([lo, hi])
+            if n >= 2 and rep == 2:   # the middle element x[n//2] is the unique minimum
+                xs[n // 2] = min(xs) - 1
+            if n >= 2 and rep == 3:   # ... the unique maximum; the unique minimum sits just before it
+                xs[n // 2] = max(xs) + 1
+                xs[(n - 1) // 2 if n % 2 == 0 else n // 2 - 1] = min(xs) - 1
             for fn in fnames:
                 for usekey in ([False, True] if (n + rep) % 2 == 0 or n <= 3 else [False]):
                     keyf = (lambda a: -a) if usekey else None
